@@ -52,8 +52,9 @@ def jobs(tier):
                              note=f"{t} over the native gate set, override mask {mask}: if the reference finds a reference that cannot be honoured, some stage up to "
                                   "emulation raises JaqalError (never another exception, never a result)"))
     for inj in range(4):
-        out.append(CH(name=f"gatesets_inj{inj}", base="c14_gatesets", func=f"{H}:c14_gatesets", params=[("ma", "int"), ("mb", "int"), ("nargs", "int"), ("other", "bool"), ("as_list", "bool")],
-                      pre=["0 <= ma <= 3", "0 <= mb <= 3", "0 <= nargs <= 3"], fixed={"inj": inj}, timeout=300,
-                      functions=["UsePulsesStatement.update_gates", "Builder.build_circuit", "Builder.get_gate_definition", "jaqal_import"],
-                      note="precedence injected > later import > earlier import decides the arity a call must have; unknown gates are rejected when natives are in force"))
+        for mb in range(4):
+            out.append(CH(name=f"gatesets_inj{inj}_b{mb}", base="c14_gatesets", func=f"{H}:c14_gatesets", params=[("ma", "int"), ("nargs", "int"), ("other", "bool"), ("as_list", "bool")],
+                          pre=["0 <= ma <= 3", "0 <= nargs <= 3"], fixed={"inj": inj, "mb": mb}, timeout=300,
+                          functions=["UsePulsesStatement.update_gates", "Builder.build_circuit", "Builder.get_gate_definition", "jaqal_import", "normalize_native_gates"],
+                          note="precedence injected (dict or list) > later import > earlier import decides the arity a call must have; unknown gates are rejected when natives are in force"))
     return out
